@@ -11,6 +11,7 @@ EXPLANATION = (
     "(R5) the global tick is assigned once, after the loop, and each committed head advances once; (R6) heads are visited "
     "in the ordered runnable set's order with faulted heads filtered; (R7) fault scoping is total over runtime errors. "
     "That restore restores the right VALUES is NOT decided."
+    " Round 2: (R1a) nothing is captured into the rollback checkpoint on a path that follows a head's commit (pre-pass image); (R8) the receipt-correlation undo journal is recorded at the back and replayed newest-first."
 )
 ASSUMPTIONS = ["clone() of heads/frontiers captures their full value", "BTreeSet iteration is canonical order"]
 FLOOR = 44
